@@ -280,7 +280,7 @@ pub fn eval(e: &Expr, s: &MStore) -> Ev {
         };
       }
       let all_f64 = vals.iter().all(|v| matches!(v, SV::F64(_)));
-      let arity = match f.as_str() { "inc" | "bad" | "shadow" | "mut" => 1, "addtwo" => 2, _ => return Ev::Unsure };
+      let arity = match f.as_str() { "inc" | "bad" | "shadow" | "mut" | "pick" | "ovf" => 1, "addtwo" => 2, _ => return Ev::Unsure };
       if vals.len() != arity { return Ev::Fail("function-arity".into()); }
       if vals.iter().any(|v| matches!(v, SV::Str(_) | SV::Bool(_))) { return Ev::Fail("function-arg-kind".into()); }
       if !all_f64 { return Ev::Unsure; }
@@ -290,6 +290,8 @@ pub fn eval(e: &Expr, s: &MStore) -> Ev {
         "addtwo" => Ev::Val(SV::f64((x(0) + 0.0) + x(1))), // the body's own order: p := x + 0; z := p + y (matters for -0.0)
         // binds its input and a local, then fails on an undefined variable
         "bad" => Ev::Fail("function-body-fails".into()),
+        // bind their input and two locals, then panic (out-of-range read, u8 overflow)
+        "pick" | "ovf" => Ev::Fail("function-body-panics".into()),
         // its locals are named like the session's variables: x, y, z, p
         "shadow" => Ev::Val(SV::f64((x(0) * 2.0 + 1.0) - 3.0)),
         _ => Ev::Unsure,
